@@ -34,32 +34,3 @@ pub proof fn lemma_subrange_snoc(s: Seq<u32>, i: int, j: int)
 {
     assert(s.subrange(i, j + 1) =~= s.subrange(i, j) + seq![s[j]]);
 }
-
-pub proof fn lemma_quot_by_refl(k: BaseRegLan)
-    ensures quot_by(k, k, eps()),
-{
-    reveal(quot_by);
-    assert forall|w: Seq<u32>| #[trigger] qb_at(k, k, eps(), w) by { assert(eps() + w =~= w); }
-}
-
-pub proof fn lemma_quot_by_step(d2: RegLan, d: RegLan, k: BaseRegLan, u: Seq<u32>, c: u32)
-    requires quot_by(d.expr, k, u), is_deriv(d2, d, c),
-    ensures quot_by(d2.expr, k, u + seq![c]), lang_k(d2.expr, eps()) == lang_k(k, u + seq![c]),
-{
-    reveal(quot_by);
-    assert forall|w: Seq<u32>| #[trigger] qb_at(d2.expr, k, u + seq![c], w) by {
-        assert(lang_k(d2.expr, w) == quot(d.expr, c, w));
-        assert(qb_at(d.expr, k, u, seq![c] + w));
-        assert(u + (seq![c] + w) =~= (u + seq![c]) + w);
-    }
-    assert(qb_at(d2.expr, k, u + seq![c], eps()));
-    assert((u + seq![c]) + eps() =~= u + seq![c]);
-}
-
-pub proof fn lemma_quot_by_empty(d: BaseRegLan, k: BaseRegLan, u: Seq<u32>, w: Seq<u32>)
-    requires quot_by(d, k, u), d is Empty,
-    ensures !lang_k(k, u + w),
-{
-    reveal(quot_by);
-    assert(qb_at(d, k, u, w));
-}
